@@ -185,28 +185,28 @@ func TestVerifC02(t *testing.T) {
 	}
 	var cases []cdesc
 	rr := rand.New(rand.NewSource(e.seed*104729 + 2))
-	reps := e.pick(1, 12)
+	reps := e.pick(2, 12)
 	for rep := 0; rep < reps; rep++ {
 		for di := range docs {
 			cases = append(cases, cdesc{"edited", []int{800, 800, 700, 900, 500}[(rep+di)%5], di, rep})
 		}
 	}
-	nadv := e.pick(250, 6000)
+	nadv := e.pick(700, 6000)
 	for k := 0; k < nadv; k++ {
 		cases = append(cases, cdesc{"adversarial", []int{800, 700, 900, 500}[k%4], rr.Intn(len(docs)), k})
 	}
-	ntrunc := e.pick(150, 4000)
+	ntrunc := e.pick(300, 4000)
 	for k := 0; k < ntrunc; k++ {
 		cases = append(cases, cdesc{"truncated", []int{800, 700, 900}[k%3], rr.Intn(len(docs)), k})
 	}
-	ncc := e.pick(80, 2500)
+	ncc := e.pick(150, 2500)
 	for k := 0; k < ncc; k++ {
 		cases = append(cases, cdesc{"concatenated", []int{800, 700, 900}[k%3], rr.Intn(len(docs)), k})
 	}
 	for k, n := 0, len(vScenarios())*e.pick(1, 3); k < n; k++ {
 		cases = append(cases, cdesc{"scenario", []int{800, 700, 900}[(k/len(vScenarios()))%3], k, k})
 	}
-	nsyn := e.pick(60, 1500)
+	nsyn := e.pick(200, 1500)
 	for k := 0; k < nsyn; k++ {
 		cases = append(cases, cdesc{"synthetic-layout", []int{800, 700, 900, 500, 1000}[k%5], 0, k})
 	}
